@@ -1,7 +1,8 @@
 #!/bin/sh
-# usage: coqdbg.sh File.v LINE  -- replace line LINE by "Show. Abort All." (prints the goal there), compile copy
+# usage: coqdbg.sh File.v LINE [maxlines] -- compile a copy truncated at LINE where that line is replaced by "Show."
+# prints the first goal (with hypotheses) at that point
 cd /verif/coq; f=$1; n=$2
 d=$(dirname $f); b=$(basename $f .v)
 sed "${n}s/.*/ Show. /" $f | awk -v n=$n 'NR<=n{print} NR==n{print "Abort All."; exit}' > $d/Dbg_$b.v
-cd /verif/coq && timeout 300 coqc -Q . CC $d/Dbg_$b.v 2>&1 | tail -${3:-40}
+timeout 300 coqc -Q . CC $d/Dbg_$b.v 2>&1 | awk '/^goal 2 is:/{exit} {print}' | grep -v "^Warning:\|^Command Abort\|undo-batch\|^File.*Dbg_" | tail -${3:-45}
 rm -f $d/Dbg_$b.v $d/Dbg_$b.vo $d/Dbg_$b.glob $d/.Dbg_$b.aux $d/Dbg_$b.vok $d/Dbg_$b.vos
